@@ -118,3 +118,13 @@ def iteration_order(graph):
 
 def jdump(obj):
     return json.dumps(obj, sort_keys=True, separators=(",", ":"))
+
+
+def raised_in_harness(exc):
+    """True if the exception was raised by harness code (innermost frame under /verif/sim), i.e. it is a bug of the
+    simulator and must never be recorded as an outcome of the code under test."""
+    import os
+    import traceback
+    here = os.path.dirname(os.path.abspath(__file__))
+    frames = traceback.extract_tb(exc.__traceback__)
+    return bool(frames) and os.path.abspath(frames[-1].filename).startswith(here)
